@@ -77,6 +77,8 @@ func VerifC11RefTick(price uint64) uint64 {
 	}
 	t, err := tickmath.PriceToTick(price)
 	vs.Assert("reference-tick-ok", err == nil)
+	// on these concrete prices the tick is the largest one whose price does not exceed the price (real tickToPriceX96)
+	vs.Assert("reference-tick-is-largest-not-exceeding-price", err != nil || tickmath.VerifC11TickIsExact(price, t))
 	return t
 }
 
